@@ -208,6 +208,16 @@ func RunC17(c *Ctx) error {
 				for t := 0; t < nt; t++ {
 					job.Tasks = append(job.Tasks, harness.TaskSpec{Ops: pool.taskOps(r.Fork("t"))})
 				}
+				if k%2 == 0 && drv.HasLexer && len(pool.valid) > 0 {
+					// every task first parses the SAME file through NewLexerFile (each under its
+					// own spelling of the path): anything the generated code keeps per file is shared
+					s0 := prng.Pick(r, pool.valid)
+					for t := range job.Tasks {
+						in := toInput(s0, false, "valid")
+						in.FromFile = true
+						job.Tasks[t].Ops = append([]harness.Op{{Op: "parse", In: in}}, job.Tasks[t].Ops...)
+					}
+				}
 				job.Schedule = gsim.Schedule{Policy: "uniform", Seed: r.U64()}
 				if k%3 == 2 {
 					// first task runs a little, then the others start
